@@ -9,6 +9,10 @@ Search (direct oracles, implementation outputs only):
   insert       merchant/category/subcategory change after inserting a rule WITHOUT category (more specific than every
                other rule, with and without a subcategory) at any position — both modes, normalize_merchant, legacy rows
   permutation  tag set changes under a permutation of the file
+  rows         the tags of a transaction classified after others in one load (normalize_merchant back to back, or as a row of a
+               statement through parse_generic_csv: transaction 'tags') differ from its tags when classified alone, or are not
+               the union computed for THAT row
+(the union oracles take a rule's tags AS WRITTEN by the generator, so the splitting of the `tags:` line is covered too)
 """
 import json
 import random
@@ -28,28 +32,51 @@ def regen_gen():
 
 def gen_cases(seed, tier):
     rnd = random.Random(seed * 15485863 + 2)
-    nr, nc = (320, 100) if tier == 'quick' else (6000, 2000)
+    nr, nc = (260, 80) if tier == 'quick' else (5000, 1600)
     cases = []
-    for _ in range(nr):
-        f = gen_rules_file(rnd, nrules=rnd.choice([1, 2, 2, 3, 3, 4, 4, 5, 6, 8]))
+    for k in range(nr):
+        f = gen_rules_file(rnd, nrules=rnd.choice([1, 2, 2, 3, 3, 4, 4, 5, 6, 8]), dup_names_p=0.1)
         ws = file_words(render_rules(f))
-        cases.append({'kind': 'rules', 'file': f, 'txns': [gen_txn(rnd, ws) for _ in range(3)]})
-    for _ in range(nc):
+        cases.append({'kind': 'rules', 'file': f, 'txns': with_neighbours(rnd, [gen_txn(rnd, ws) for _ in range(2)]),
+                      'ds': DS if k % 2 else None})
+    for k in range(nc):
         f = gen_csv_file(rnd)
         ws = file_words(render_csv(f))
-        cases.append({'kind': 'csv', 'file': f, 'txns': [gen_txn(rnd, ws) for _ in range(3)]})
+        cases.append({'kind': 'csv', 'file': f, 'txns': with_neighbours(rnd, [gen_txn(rnd, ws) for _ in range(2)]),
+                      'ds': DS if k % 2 else None})
+    # corpus 1: static tags containing an apostrophe / a double quote / parentheses, FOLLOWED by further static and dynamic tags
+    blk = lambda n, m, c, tags: {'name': n, 'match': m, 'category': c, 'subcategory': '', 'merchant': '', 'tags': tags, 'priority': None,
+                                 'lets': [], 'fields': []}
+    tx = lambda d, memo, **kw: dict({'d': d, 'a': 51200, 'date': '2025-01-05', 'field': {'memo': memo}, 'source': 'Amex', 'location': None}, **kw)
+    for quoted in ("kid's", "O'Hare", 'say "hi', '5" sub', "it's a \"deal", 'fee (atm)', "x (o'clock)", "rock'n'roll"):
+        cases.append({'kind': 'rules', 'ds': None, 'file': {'vars': [], 'tfs': [], 'rules': [
+            blk('School', 'contains("ACADEMY")', 'Education', [quoted, 'School', '{field.memo}']),
+            blk('Tagger', 'contains("ACADEMY")', '', ['first', quoted, '{source}', 'Last'])]},
+            'txns': [tx('ACADEMY FEES', 'Wire')]})
+    # corpus 2: statement rows identical in date/description/amount/location that differ only in a captured column, with
+    # {field.memo} tags and tag-only rules conditioned on field.memo (.rules and legacy)
+    rows = [tx('ACADEMY FEES', 'Wire'), tx('ACADEMY FEES', 'ACH-Batch7'), tx('ACADEMY FEES', 'Check', date='2025-01-06'),
+            tx('ACADEMY FEES', 'ACH-Batch9'), tx('ACADEMY FEES', 'Wire'), tx('ACADEMY FEES', 'Wire', location='Seattle, WA')]
+    cases.append({'kind': 'rules', 'ds': None, 'file': {'vars': [], 'tfs': [], 'rules': [
+        dict(blk('School', 'contains("ACADEMY")', 'Education', ['School']), priority=90),
+        blk('Payment kind', 'contains("ACADEMY")', '', ['{field.memo}']),
+        blk('Debit', 'startswith(field.memo, "ACH")', '', ['bank-debit', '{extract(field.memo, "ACH-(\\\\w+)")}'])]}, 'txns': rows})
+    cases.append({'kind': 'csv', 'ds': None, 'file': {'tfs': [], 'rows': [
+        {'pattern': 'ACADEMY', 'merchant': 'School', 'category': 'Education', 'subcategory': '', 'tags': ['School', '{field.memo}']},
+        {'pattern': 'ACADEMY', 'merchant': 'Src', 'category': '', 'subcategory': '', 'tags': ['{source}']}]}, 'txns': rows})
     # DESIGN F2 witness
     cases.append({'kind': 'rules', 'file': {'vars': [], 'tfs': [], 'rules': [
         {'name': 'Netflix', 'match': 'contains("NETFLIX")', 'category': 'Subs', 'subcategory': 'Streaming', 'merchant': '', 'tags': [],
          'priority': None, 'lets': [], 'fields': []}]},
-        'txns': [{'d': 'NETFLIX.COM 1234', 'a': 1024, 'date': '2025-01-15', 'field': None, 'source': 'Amex', 'location': None}]})
+        'txns': [{'d': 'NETFLIX.COM 1234', 'a': 8192, 'date': '2025-01-15', 'field': None, 'source': 'Amex', 'location': None}]})
     return cases, rnd
 
 
 # ---------------------------------------------------------------------------------------------------
-def legacy_expected_tags(jr, tr, verdicts):
+def legacy_expected_tags(jr, tr, verdicts, frows=None):
     exp = set()
-    for r, v, dyn in zip(jr['rules'], verdicts, tr['oracle']['dyn']):
+    src = frows if frows is not None and len(frows) == len(jr['rules']) else jr['rules']     # tags as written in the CSV cell
+    for r, v, dyn in zip(src, verdicts, tr['oracle']['dyn']):
         if v:
             exp |= resolved_tags_spec(r, dyn)
     return exp
@@ -63,7 +90,7 @@ def judge_base(c, jr, ti):
     if c['kind'] == 'rules':
         if any_abort(tr):
             return out
-        exp = expected_tags(jr, tr)
+        exp = expected_tags(jr, tr, c['file']['rules'])
         obs = [('match(first_match)', tr['fm']['tags']), ('match(most_specific)', tr['ms']['tags'])]
         for mode, n in (tr.get('norm') or {}).items():
             obs.append((f'normalize_merchant({mode})', (n.get('info') or {}).get('tags', [])))
@@ -79,10 +106,10 @@ def judge_base(c, jr, ti):
         if 'crash' in n:
             return out
         tags = set((n.get('info') or {}).get('tags', []))
-        exp = legacy_expected_tags(jr, tr, legacy_direct(jr, c['txns'][ti], tr))
+        exp = legacy_expected_tags(jr, tr, legacy_direct(jr, c['txns'][ti], tr), c['file']['rows'])
         if tags != exp:
             v1, _ = c01.legacy_verdicts(jr, tr, c['txns'][ti])
-            sig = SIG_F1 if v1 is not None and legacy_expected_tags(jr, tr, v1) == tags else None
+            sig = SIG_F1 if v1 is not None and legacy_expected_tags(jr, tr, v1, c['file']['rows']) == tags else None
             out.append(('union', {'why': 'legacy loop: tag set is not the union of the tags of the rows whose regex matches and modifiers hold',
                                   'expected': sorted(exp), 'observed': sorted(tags),
                                   'matching_rows': [r['pattern'] for r, d in zip(jr['rules'], legacy_direct(jr, c['txns'][ti], tr)) if d]}, sig))
@@ -183,6 +210,12 @@ def evaluate(cases, rnd, tier='quick'):
         for ti in range(len(c['txns'])):
             for name, det, sig in judge_base(c, jr, ti):
                 fails.append((ci, ti, name, det, sig))
+    for ci, (c, jr) in enumerate(zip(cases, base)):
+        if 'parse_error' in jr or 'harness_error' in jr:
+            continue
+        for ti, mode, what, det in judge_one_load(c, jr):
+            if what == 'tags':
+                fails.append((ci, 0 if ti is None else ti, 'rows', det, None))
     st = {}
     for req, vr in zip(reqs, vres):
         hist_add(st, req['tag'])
@@ -191,10 +224,10 @@ def evaluate(cases, rnd, tier='quick'):
     return base, fails, st
 
 
-def still_fails_factory(kind, txn, name, sig, seed):
+def still_fails_factory(c, txns, name, sig, seed):
     def still(f):
         try:
-            _, fails, _ = evaluate([{'kind': kind, 'file': f, 'txns': [txn]}], random.Random(seed), 'thorough')
+            _, fails, _ = evaluate([sub_case(c, f, txns)], random.Random(seed), 'thorough')
         except Exception:  # noqa
             return False
         return any(x[2] == name and x[4] == sig for x in fails)
@@ -233,10 +266,18 @@ def main(tier):
         ci, ti, _, det, _ = min(fl, key=lambda x: len(json.dumps(cases[x[0]]['file'])))
         c = cases[ci]
         small, case_out = c['file'], c
-        still = still_fails_factory(c['kind'], c['txns'][ti], name, sig, run.seed)
+        txs = c['txns'] if name == 'rows' else [c['txns'][ti]]       # a statement-row failure needs the earlier rows
+        still = still_fails_factory(c, txs, name, sig, run.seed)
         if still(small):
             small = (shrink_rules if c['kind'] == 'rules' else shrink_csv)(small, still)
-            case_out = {'kind': c['kind'], 'file': small, 'txns': [c['txns'][ti]]}
+            i = 0
+            while len(txs) > 1 and i < len(txs):
+                cand = txs[:i] + txs[i + 1:]
+                if still_fails_factory(c, cand, name, sig, run.seed)(small):
+                    txs = cand
+                else:
+                    i += 1
+            case_out = sub_case(c, small, txs)
             _, f2, _ = evaluate([case_out], random.Random(run.seed), 'thorough')
             f2 = [x for x in f2 if x[2] == name and x[4] == sig]
             if f2:
